@@ -86,8 +86,10 @@ OpRemoveStored(i) == /\ En("rh") /\ i \in 1..Len(hv) /\ hv[i] # 0 /\ Alive(hv[i]
                      /\ obj' = [p \in Objs |-> IF p \in Peers(hv[i]) THEN [obj[p] EXCEPT !.lst = [c \in Ch |-> Without(obj[p].lst[c], i)]] ELSE obj[p]]
                      /\ UNCHANGED <<ncb, nflt, nenq, alias, bad>> /\ H("rh", hv[i], i)
 Retire(S) == [i \in 1..Len(hv) |-> IF hv[i] \in S THEN 0 ELSE hv[i]]
+\* (configurations that do not generate "rh" do not track the handles: the state space stays what it was; every script's epilogue probes them anyway)
 HvStep == LET h == hist'[Len(hist')] IN
-          hv' = CASE h[1] = "al" -> Append(hv, h[2])
+          hv' = IF "rh" \notin Ops THEN hv ELSE
+                CASE h[1] = "al" -> Append(hv, h[2])
                   [] h[1] = "ca" /\ h[2] # h[3] -> Retire({h[3]})
                   [] h[1] = "mc" -> Retire({h[2]})
                   [] h[1] = "ma" -> Retire({h[2], h[3]})
